@@ -380,7 +380,8 @@ func classify(e1, e2 influxql.Expr, reCtx bool) string {
 			if g := groupingDefect(a); g != "" && g != "?" {
 				return g
 			}
-			return ""
+			// a re-parse that stopped early shifts the whole chain: look for what stopped it
+			return scanFeatures(a)
 		}
 		// the shape differs here: a grouping defect of this subtree, or a defect further down
 		// that ended the re-parse early
@@ -409,6 +410,20 @@ func scanFeatures(e influxql.Expr) string {
 			} else if isInfNan(x.Name) {
 				set("ident_inf_nan")
 			}
+			// `f(/re/ * 2)`: parseCall takes the regex as the whole argument and then wants `,` or `)`
+			for _, a := range x.Args {
+				first := a
+				for {
+					if b, ok := first.(*influxql.BinaryExpr); ok {
+						first = b.LHS
+						continue
+					}
+					break
+				}
+				if _, isRe := first.(*influxql.RegexLiteral); isRe && first != a {
+					set("regex_call_argument_with_operator")
+				}
+			}
 		case *influxql.BinaryExpr:
 			if x.Op == influxql.EQREGEX {
 				if _, ok := x.RHS.(*influxql.RegexLiteral); !ok {
@@ -422,6 +437,11 @@ func scanFeatures(e influxql.Expr) string {
 			// `inf::float` re-parses as the number and stops in front of the `::`
 			if isInfNan(x.Val) && x.Type != influxql.Unknown {
 				set("ident_inf_nan")
+			}
+			// `a::"duration"` is accepted (the quoted name is an IDENT), printed as `a::duration`
+			// where `duration` is the keyword DURATION, which ParseVarRef does not take
+			if x.Type == influxql.Duration {
+				set("duration_typed_ref")
 			}
 		case *influxql.NumberLiteral:
 			// an integral float beyond the uint64 range prints as digits no integer parser accepts
@@ -708,5 +728,5 @@ var corpus = []string{
 	"a IN (-1, 2)", "a IN ('')", "a NOT IN ('it\\'s', 1.5)", "MATCH(a, 'x') AND b = 1", "a + 1 LIKE 'x'", "a LIKE 'x%'",
 	"count(*) > 1", "f(*::tag, /a\\/b/, x) > 1", "a = /x\\/y/", "a =~ 'x'", "(a = 1) = (b = 2)", "((a + b)) * c = 1",
 	"a = 1 AND (b)", "(a) AND b = 1", "a = 1 = 2", "a = -0.0", "a = 00012", "a = 9223372036854775807ns", "a = 106752d",
-	"cast(x AS float) > 1", "a--1 > 0", "a = 1 /* c */", "\"\" = 1", "a = ''", "time >= '2020-01-01T00:00:00Z' AND time < '2020-01-02'",
+	"cast(x AS float) > 1", "a--1 > 0", "a::\"duration\" > 1", "a::\"float\" > 1", "a = 1 /* c */", "\"\" = 1", "a = ''", "time >= '2020-01-01T00:00:00Z' AND time < '2020-01-02'",
 }
